@@ -516,6 +516,65 @@ def rule_cleanup(chk, prog, tool):
             chk.ok("K1-cleanup", "%s:cleanup-unlinks" % tool, un[0], "the output file is unlinked whenever status != EXIT_SUCCESS")
         else:
             chk.violation("K1-cleanup", "%s:cleanup-unlinks" % tool, g, "sqfs_writer_cleanup does not unlink the output on failure")
+        # a failing sqfs_writer_init removes the file it created
+        ini = prog.need_fn("sqfs_writer_init")
+        ini.build()
+        chk.analysed(ini)
+        opens = [c for c in ini.calls() if norm_callee(c.callee) == "sqfs_file_open"]
+        if not opens:
+            chk.broke("sqfs_writer_init no longer opens the output with sqfs_file_open")
+        else:
+            op = opens[0]
+            ok_edge = None
+            for u in ini.uses.get(op, []):
+                if u.op == "icmp":
+                    for br in ini.uses.get(u, []):
+                        if br.op == "br" and len(br.x["succ"]) == 2:
+                            ok_edge = br.x["succ"][1] if u.pred == "ne" else br.x["succ"][0]
+            fail_blocks = {b for (v, b) in ret_sources(ini) if not (strip_casts(v).is_const and strip_casts(v).is_int and strip_casts(v).sval == 0)}
+            unl = {c.bb for c in ini.calls() if norm_callee(c.callee) in ("unlink", "remove", "unlinkat", "DeleteFileW")}
+            bad = None
+            seen_b, stack = set(), [ok_edge] if ok_edge is not None else []
+            while stack:
+                b = stack.pop()
+                if b in seen_b or b in unl:
+                    continue
+                seen_b.add(b)
+                if b in fail_blocks or (b.term.op == "ret" and any(fb is b for fb in fail_blocks)):
+                    bad = b
+                    break
+                stack.extend(b.succs)
+            if ok_edge is None:
+                chk.violation("K1-cleanup", "%s:init-unlinks" % tool, op, "the result of opening the output file is not tested")
+            elif bad is None:
+                chk.ok("K1-cleanup", "%s:init-unlinks" % tool, op, "every failing exit of sqfs_writer_init after the output file was created passes an unlink")
+            else:
+                chk.violation("K1-cleanup", "%s:init-unlinks" % tool, bad.term, "sqfs_writer_init can fail after it created the output file "
+                              "without removing it (main does not call sqfs_writer_cleanup when init fails): an empty or partial image is left behind")
+        # the working directory is the one the output name is relative to when cleanup runs
+        for g2 in prog.functions():
+            if g2.decl or not g2.unit.src.startswith("bin/%s/" % tool):
+                continue
+            for c in g2.calls():
+                if norm_callee(c.callee) != "chdir":
+                    continue
+                chk.analysed(g2)
+                back = {x.bb for x in g2.calls() if norm_callee(x.callee) in ("fchdir",)}
+                okb = None
+                for u in g2.uses.get(c, []):
+                    if u.op == "icmp":
+                        for br in g2.uses.get(u, []):
+                            if br.op == "br" and len(br.x["succ"]) == 2:
+                                okb = br.x["succ"][1] if u.pred == "ne" else br.x["succ"][0]
+                from ..util import feasible_reach
+                rets = {r.bb for r in g2.rets()}
+                bad = feasible_reach(g2, okb if okb is not None else c.bb, back, rets)
+                inst = "%s:%s:chdir" % (tool, g2.name)
+                if bad is None:
+                    chk.ok("K1-cleanup", inst, c, "every path from the successful chdir() to the function's return goes back with fchdir()")
+                else:
+                    chk.violation("K1-cleanup", inst, c, "the packer changes its working directory and can return without going back: a "
+                                  "relative output file name no longer names the image, so a failed run cannot remove it")
     # exit status: constant 0 is selected only in blocks no failure edge can reach
     zero_blocks = {b for (v, b) in ret_sources(main) if v.is_const and v.is_int and v.sval == 0}
     fes = []
@@ -716,7 +775,7 @@ def run(chk):
     chk.floor("E3", 120)
     chk.floor("E4", 60)
     chk.floor("E5", 15)
-    chk.floor("K1-cleanup", 6)
+    chk.floor("K1-cleanup", 9)
     chk.floor("K1-status", 4)
     chk.floor("E1-submit", 1)
     chk.floor("K8-handover", 4)
